@@ -33,7 +33,7 @@ EXHAUSTIVE = {"quick": False, "thorough": False}
 def plan(tier, seed):
     if tier == "quick":
         return [{"trees": 4500}]
-    return [{"trees": 9000, "salt": i} for i in range(16)]
+    return [{"trees": 60000, "salt": i} for i in range(32)]
 
 
 TEXT = [c for c in xmlgen.TEXT_CHARS]
